@@ -82,7 +82,8 @@ fn fix_ident_conflicts(sig: &mut syn::Signature) {
     for fn_arg in sig.inputs.iter_mut() {
         if let syn::FnArg::Typed(pat_type) = fn_arg {
             if let syn::Pat::Ident(param_ident) = pat_type.pat.as_mut() {
-                if param_ident.ident == fn_ident {
+                // (`r#foo` and `foo` are one and the same identifier)
+                if param_ident.ident.unraw() == fn_ident.unraw() {
                     // (format_ident strips the `r#` of raw identifiers)
                     let mut new_ident = quote::format_ident!("{}_", param_ident.ident);
                     while taken_idents.contains(&new_ident.to_string()) {
@@ -160,7 +161,7 @@ fn autogenerate_for_non_idents(sig: &mut syn::Signature) {
         .filter_map(|fn_arg| match fn_arg {
             syn::FnArg::Receiver(_) => None,
             syn::FnArg::Typed(pat_type) => match pat_type.pat.as_ref() {
-                syn::Pat::Ident(pat_ident) => Some(pat_ident.ident.to_string()),
+                syn::Pat::Ident(pat_ident) => Some(pat_ident.ident.unraw().to_string()),
                 _ => None,
             },
         })
